@@ -177,7 +177,7 @@ def inv (x : Nat) : Fuel Nat :=
     match outer 400 0 u M (M - 1) with
     | .out => .out
     | .done a =>
-      match reduceA 8 a with
+      match reduceA 200 a with
       | .out => .out
       | .done a => .done (mul (a % 18446744073709551616) R3)
 
@@ -265,7 +265,7 @@ def inv (x : Nat) : Fuel Nat :=
     let u := if x % 2 = 1 then x else x + M
     match outer 800 0 u M (M - 1) with
     | .out => .out
-    | .done a => reduceA 8 a
+    | .done a => reduceA 200 a
 
 def impl : FieldImpl where
   name := "f128"
